@@ -126,6 +126,8 @@ pub(crate) mod frame_info;
 pub(crate) mod input_queue;
 pub(crate) mod sync_layer;
 pub(crate) mod time_sync;
+#[cfg(ggrs_verif)]
+pub mod verif;
 pub(crate) mod sessions {
     pub(crate) mod builder;
     pub(crate) mod p2p_session;
